@@ -1105,7 +1105,10 @@ class FileBuilder:
         try:
             operation.return_value = self._simple_operation_executor.exec(
                 operation.name, operation.args, None)
-        except OSError as exception:
+        except (OSError, ValueError) as exception:
+            # The OS functions raise a ValueError rather than an OSError for
+            # filenames that no file can have, e.g. those containing a null
+            # character
             operation.exception_type_str = exception.__class__.__name__
             raise
         finally:
@@ -1269,7 +1272,7 @@ class FileBuilder:
             return_value = self._simple_operation_executor.exec(
                 name, operation.args, created_files)
             exception_type_str = None
-        except OSError as exception:
+        except (OSError, ValueError) as exception:
             return_value = None
             exception_type_str = exception.__class__.__name__
         return (
